@@ -133,5 +133,5 @@ def job(prop, alg, n, k, mandatory=True, **kw):
     if alg == 'dp':
         j['loose'] = True          # DP takes min() over a set: ties are broken by hash order (stub S3)
     if alg == 'ilp':
-        j['validate'] = False      # sampled-path validation runs the real CBC, which need not pick the stub's optimum
+        j['loose'] = True          # sampled paths are re-run with the real CBC, which need not pick the stub's optimum: only the obligations are re-evaluated
     return j
